@@ -2605,6 +2605,11 @@ def c17(ctx):
     for k in ctx.known:
         if k["id"] == "F18":
             jobs.append(("f18", [k["witness"]["patch"]], k["witness"]["file"]))
+    for cname in ("cases.json", "seeded_demos.json"):       # witnesses of repaired defects; inputs of seeded demonstrations
+        cpath = os.path.join(VERIF, "corpus", "C17", cname)
+        if os.path.exists(cpath):
+            for w in json.load(open(cpath)):
+                jobs.append((w["id"], w["patches"], w["src"]))
     def one(job):
         cid, patches, src = job
         root = ctx.scratch("c17")
@@ -2671,8 +2676,31 @@ def c17(ctx):
             if all("syntactically unchanged but its comments changed" in p for p in o["problems"]) and any("+import" in p for p in patches):
                 g = group_imports(src)
                 if g and g != src and not c17_problems(ctx, one, patches, g):
-                    payload["import_merge_only"] = True
+                    # F18 happens within one change. When the run has several, the loss must already occur with
+                    # an import-adding change alone; otherwise something else (state carried from change to change) lost them
+                    singles = [ch for p in patches for ch in split_changes(p)]
+                    if len(singles) <= 1 or any("+import" in ch and c17_problems(ctx, one, [ch], src) not in ([], ["not patched"])
+                                                for ch in singles):
+                        payload["import_merge_only"] = True
             ctx.violation("; ".join(o["problems"][:2])[:600], payload)
+
+def split_changes(text):
+    """the individual changes of a patch file, each as its own patch text"""
+    out, cur, nat = [], [], 0
+    for l in text.split("\n"):
+        if l.startswith("@"):
+            nat += 1
+            if nat % 2 == 1 and any(x.startswith("@") for x in cur):
+                # a new header: the '#' lines directly above it belong to it
+                k = len(cur)
+                while k > 0 and cur[k - 1].lstrip().startswith("#"):
+                    k -= 1
+                out.append("\n".join(cur[:k]) + "\n")
+                cur = cur[k:]
+        cur.append(l)
+    if any(x.startswith("@") for x in cur):
+        out.append("\n".join(cur))
+    return out
 
 def group_imports(src):
     """the same file with all its leading import declarations grouped into one block (None if there is nothing to group)"""
